@@ -13,7 +13,7 @@ EXPLANATION = (
     "order (last+pop, or a reversed slice iterator); (R4) rollback replays what was recorded: recorded line, recorded fuzz level, "
     "opposite direction, and the direction named by the caller is the one recorded in the replayed report; (R5) 'never aborts' for "
     "stacks of hunks: the line handed on as frozen after a hunk is the end of its whole matched range, so that no later hunk changes a "
-    "line the undo of this hunk will re-match (reported today as known finding G24). Not decided: exact content restoration."
+    "line the undo of this hunk will re-match (reported today as known finding G24). (R8) the state of a file (content, deleted, permissions) is only written inside the application that records the previous values, and in move_in / move_out. Not decided: exact content restoration."
 )
 LEVEL_NOTE = "Undecided: content equality after undo; abort on a hunk that changed a line of the previous hunk's trailing context."
 
